@@ -54,6 +54,11 @@ def run(ctx):
         lines.append("%dc\tcli\t-\t%s\t" % (k, mainp))
         lines.append("%dl\tlib\t-\t%s\t%s" % (k, mainp, root))
         lines.append("%dg\tlibgen\t-\t%s\t%s" % (k, mainp, root))
+        # the library entry point with the input named by a relative or otherwise non-canonical path
+        # (a build script usually does): same verdict as with the canonical one
+        rel = os.path.relpath(mainp, os.getcwd())
+        spell = [rel, "./" + rel, os.path.join(os.path.dirname(rel), "..", os.path.basename(os.path.dirname(rel)), os.path.basename(rel))][k % 3]
+        lines.append("%dr\tlibgen\t-\t%s\t%s" % (k, spell, root))
         if len(fs["files"]) == 1:
             # a build script may pass no include directory at all when the file includes nothing
             lines.append("%dh\tlibgen\t-\t%s\t" % (k, mainp))
@@ -94,6 +99,7 @@ def run(ctx):
     for k, (fs, info) in enumerate(muts):
         hc, hl, hg = hres.get("%dc" % k), hres.get("%dl" % k), hres.get("%dg" % k)
         hnoinc = hres.get("%dh" % k)
+        hrel = hres.get("%dr" % k)
         if not hc:
             continue
         rule_hist[info["rule"]] = rule_hist.get(info["rule"], 0) + 1
@@ -115,7 +121,8 @@ def run(ctx):
         if hg and hl and hg["result"].startswith("ok") and hl["result"] != "ok":
             res["corr_broken"].append({"kind": "correspondence", "detail": "idlc::Language::generate disagrees with the replayed library pipeline on mutant %d (%s)" % (k, info["rule"]), "case": payload})
         for entry, acc in (("cli", b is not None and b[0] == 0), ("libgen", bool(hg) and hg["result"].startswith("ok")),
-                           ("libgen-no-include-dirs", bool(hnoinc) and hnoinc["result"].startswith("ok"))):
+                           ("libgen-no-include-dirs", bool(hnoinc) and hnoinc["result"].startswith("ok")),
+                           ("libgen-relative-path", bool(hrel) and hrel["result"].startswith("ok"))):
             if not acc:
                 continue
             accepted_total += 1
